@@ -102,8 +102,9 @@ def check(prop, tier, seed):
         proof['theorems'] = thms
         proof['assumptions'] = assumptions
         proof['problems'] += problems
-        deps = build.coqdep_closure('theories/Props/%s.v' % prop)
-        obligations = build.count_statements(deps)
+        if os.path.exists(os.path.join(build.COQ, 'theories/Props/%s.v' % prop)):
+            deps = build.coqdep_closure('theories/Props/%s.v' % prop)
+            obligations = build.count_statements(deps)
         if tier == 'thorough' and spec.coqchk:
             rc, out = build.run(['coqchk', '-silent', '-o', '-Q', 'theories', 'RS', 'RS.Props.%s' % prop], cwd=build.COQ, timeout=3600, check=False)
             notes.append('coqchk: rc=%d %s' % (rc, out.strip().replace('\n', ' | ')[-600:]))
